@@ -29,6 +29,7 @@ EXPLANATION = (
     "time; verdict equality on data."
     ' (R13) while BaseFieldInfo hashes / compares by name, the @check / @parser factories (pandas/polars and pyspark) hand the designations to the *Info object without set / frozenset / dict-key / set-comprehension: at decoration time every class-scope Field still has name None and a hash container would keep only the first.'
     " (R14) the MRO-walking collectors of @check / @dataframe_check / @parser methods record a name as seen for every attribute (not only behind the isinstance(info, <Kind>Info) filter), so a subclass attribute of another kind hides the parent's method as attribute lookup does."
+    ' (R15) in the Config-extras conversion (the function calling getattr(Check, name)(*args, **kwargs)) the value is splatted positionally exactly under isinstance(value, tuple) and as keywords exactly under isinstance(value, dict).'
 )
 LEVEL_RULE = "one obligation per twin pair / config option / dispatch key / field attribute / write site"
 FLOORS = {"R1": 4, "R2": 12, "R3": 16, "R4": 14, "R5": 1, "R6": 1, "R7": 1, "R8": 1, "R9": 1, "R10": 1, "R11": 2, "R12": 3}
